@@ -13,9 +13,9 @@ cp demo_*.py $V/seeded/$ID/ 2>/dev/null
 [ -f meta.json ] && cp meta.json $V/seeded/$ID/agent_meta.json
 DEMO=$(ls demo_*.py | head -1)
 timeout 300 /venv/bin/python $DEMO > /tmp/seed_demo_with.txt 2>&1; WITH=$?
-git stash -q -- electrumx electrumx_compact_history
+git apply -R $V/seeded/$ID/patch.diff
 timeout 300 /venv/bin/python $DEMO > /tmp/seed_demo_without.txt 2>&1; WITHOUT=$?
-git stash pop -q
+git apply $V/seeded/$ID/patch.diff
 timeout 900 /venv/bin/python -m pytest -q -p no:cacheprovider --deselect tests/server/test_compaction.py::test_compaction --timeout=120 > /tmp/seed_tests.txt 2>&1; TESTS=$?
 echo "demo with change: exit $WITH; without: exit $WITHOUT; suite with change: exit $TESTS ($(tail -1 /tmp/seed_tests.txt))"
 cd $V
